@@ -11,6 +11,7 @@ every equation), list-level completeness (`none` exhibits a non-zero kernel vect
 bridge from coefficient lists to `Matrix.mulVec`. -/
 set_option linter.unusedSimpArgs false
 set_option linter.unusedVariables false
+set_option linter.unusedSectionVars false
 namespace PyYetiVerif.Freq
 open Matrix
 
